@@ -314,3 +314,40 @@ theorem walk_consumed (items : List Ix) : ∀ (e : Nat) (dims : Shape) (P : List
           simp [consumed, ih _ _ _ h1]; omega
 
 end TdVerif.C03
+
+namespace TdVerif.C03
+open TorchSpec Td
+
+theorem mapM_zip_map {α β γ : Type} (f : α → β) (g : α × β → Except Err γ) (l : List α) :
+    (l.zip (l.map f)).mapM g = l.mapM (fun a => g (a, f a)) := by
+  induction l with
+  | nil => rfl
+  | cons a r ih => simp [List.mapM_cons, ih]
+
+/-- what `__setitem__` does with one entry of a collection value once the value has the indexed batch size:
+    `entry[idx] = value[key]` on the destination leaf, or on a fresh zero leaf for a key missing from the destination -/
+def entryWrite (td : TD) (ibs : Shape) (items : List Ix) (e : VEntry) : Except Err EntryWrite := do
+  let leafShape ← (match e.target with
+    | some j => match td.leaves[j]? with
+      | some feat => .ok (td.bs ++ feat)
+      | none => .error .runtime
+    | none => if hasPrefix ibs e.shape then .ok (td.bs ++ e.shape.drop ibs.length) else .error .runtime)
+  let w ← TorchSpec.setIndex leafShape items e.shape
+  pure { target := e.target, leafShape := leafShape, written := fun c => (w c).map (·.drop 0) }
+
+/-- `td[idx] = TensorDict(..., batch_size = indexed batch size)`: one `entry[idx] = value[key]` per key, nothing else -/
+theorem setitemColl_exact (td : TD) (items : List Ix) (R : IndexResult) (entries : List VEntry)
+    (hn : noEll items = true) (h : index td.bs items = .ok R) :
+    setitemColl td (.tuple items) false R.shape entries = entries.mapM (entryWrite td R.shape items) := by
+  have hany : items.any (· = Ix.ell) = false := by
+    simp only [noEll, List.all_eq_true, bne_iff_ne, ne_eq] at hn
+    simpa using hn
+  obtain ⟨hs, P, hw, hf⟩ := index_inv h
+  have hc : checkIndexNdim (.tuple items) td.bs.length = .ok () := (checkIndexNdim_ok_iff items _).mpr hs
+  have hb := getitemBatchSize_tuple td.bs items _ P R hn hw hf
+  simp only [setitemColl, hany, Bool.false_eq_true, if_false, bind, Except.bind, hc, hb, if_true, pure, Except.pure,
+    PyIndex.items]
+  rw [mapM_zip_map]
+  rfl
+
+end TdVerif.C03
